@@ -97,6 +97,11 @@ func runIter(c IterCase) (res vh.Result) {
 	if crash := w.CoreCrash(); crash != "" {
 		return fail("core-crash", "the core died: %s", crash)
 	}
+	if cerr != nil && strings.Contains(cerr.Error(), "deployment timed out") {
+		res.Inconclusive = "deployment did not finish: " + cerr.Error()
+		simworld.Discard()
+		return
+	}
 	if cerr != nil {
 		return fail("creation-failed", "every consumer's target names the producer generated for the same element, yet creation failed: %v", cerr)
 	}
